@@ -281,6 +281,42 @@ def argEval (tp : Option Ty) (mOk : Bool) (k : Cache) (st : FnState F)
   | some .invalid => (.err, k, st)
   | some t => rec t
 
+/-- The first half of `EvalBinaryNode.eval`: which function will run. A node with a dynamic operand goes
+through `evaluateDynamicNode` (operand `Type()`s — an error there is the result —, then the cache is
+overwritten with the types and the looked-up function); a node with constant operands runs the function it
+holds in the cache. Result: (type error?, function, cache afterwards). -/
+def specC (op : BOp) (l r : Expr F) (c : Cache) : Bool × Option Entry × Cache :=
+  if isDyn ctx l || isDyn ctx r then
+    let k1 := typeW ctx σ l c.k1
+    match typeP ctx σ l with
+    | none => (true, none, c.setK1 k1)
+    | some tl =>
+      let k2 := typeW ctx σ r c.k2
+      match typeP ctx σ r with
+      | none => (true, none, (c.setK1 k1).setK2 k2)
+      | some tr => (false, lookup ctx.tbl op tl tr, .node tl tr (lookup ctx.tbl op tl tr) k1 k2 c.k3)
+  else (false, c.fn, c)
+
+/-- `specC` with the cache erased: the function always comes from the table. -/
+def specN (op : BOp) (l r : Expr F) : Bool × Option Entry :=
+  if isDyn ctx l || isDyn ctx r then
+    match typeP ctx σ l with
+    | none => (true, none)
+    | some tl =>
+      match typeP ctx σ r with
+      | none => (true, none)
+      | some tr => (false, lookup ctx.tbl op tl tr)
+  else (false, lookup ctx.tbl op (constType ctx l) (constType ctx r))
+
+/-- `argEval` without the cache. -/
+def argEvalN (tp : Option Ty) (mOk : Bool) (st : FnState F)
+    (rec : Ty → Outcome (Value F) × FnState F) : Outcome (Value F) × FnState F :=
+  match tp with
+  | none => (.err, st)
+  | some .missing => if mOk then (.ok .missing, st) else (.err, st)
+  | some .invalid => (.err, st)
+  | some t => rec t
+
 /-- `EvalX(scope, state)` with `X = w`, for every node kind. Returns outcome, cache, function state. -/
 def evalC (w : Ty) : Expr F → Cache → FnState F → Outcome (Value F) × Cache × FnState F
   | .lit v, c, st => (chk w (.ok v), c, st)
@@ -303,17 +339,7 @@ def evalC (w : Ty) : Expr F → Cache → FnState F → Outcome (Value F) × Cac
   | .bin op l r, c, st =>
     if w = .bool ∨ w = .int ∨ w = .float ∨ w = .string ∨ w = .duration then
       -- eval(): a dynamic operand ⇒ evaluateDynamicNode (types, cache write, look-up)
-      let spec : Bool × Option Entry × Cache :=
-        if isDyn ctx l || isDyn ctx r then
-          let k1 := typeW ctx σ l c.k1
-          match typeP ctx σ l with
-          | none => (true, none, c.setK1 k1)
-          | some tl =>
-            let k2 := typeW ctx σ r c.k2
-            match typeP ctx σ r with
-            | none => (true, none, (c.setK1 k1).setK2 k2)
-            | some tr => (false, lookup ctx.tbl op tl tr, .node tl tr (lookup ctx.tbl op tl tr) k1 k2 c.k3)
-        else (false, c.fn, c)
+      let spec := specC ctx σ op l r c
       if spec.1 then (.err, spec.2.2, st) else
       let cS := spec.2.2
       -- evalSpecialized()
@@ -385,6 +411,92 @@ def evalC (w : Ty) : Expr F → Cache → FnState F → Outcome (Value F) × Cac
     let (res, st') := callFn ctx fn [.missing, .missing, .missing, .missing, .missing] st
     (chk w res, c, st')
 
+/-- The same evaluator with the cache ERASED: every binary node takes its function from the table for the
+operand types it has now (the constant types when both operands are non-dynamic). It is what a freshly
+compiled expression does; `Kap.Props.C04.cache_transparent` proves that `evalC` computes exactly this for
+every cache the evaluator can be in. -/
+def evalN (w : Ty) : Expr F → FnState F → Outcome (Value F) × FnState F
+  | .lit v, st => (chk w (.ok v), st)
+  | .ref n, st =>
+    match σ.get n with
+    | some v => (chk w (.ok v), st)
+    | none => (.err, st)
+  | .un op e, st =>
+    if w = .bool ∨ w = .int ∨ w = .float ∨ w = .duration then
+      match typeP ctx σ (.un op e) with
+      | none => (.err, st)
+      | some typ =>
+        if typ = w then
+          if w = .bool ∧ op ≠ .not then (.err, st) else
+          let (r, st') := evalN w e st
+          ((match r with | .ok v => negate ctx.ops v | o => o), st')
+        else (.err, st)
+    else (.err, st)
+  | .bin op l r, st =>
+    if w = .bool ∨ w = .int ∨ w = .float ∨ w = .string ∨ w = .duration then
+      let spec := specN ctx σ op l r
+      if spec.1 then (.err, st) else
+      match spec.2 with
+      | none => (.err, st)
+      | some ent =>
+        let (rl, st1) := evalN ent.lm l st
+        match rl with
+        | .ok vl =>
+          let short : Option Bool :=
+            match ent.shape, vl with
+            | .andSC, .bool false => some false
+            | .orSC, .bool true => some true
+            | _, _ => none
+          (match short with
+           | some b => (chk w (.ok (.bool b)), st1)
+           | none =>
+             if ent.shape = .unknown then (.err, st1) else
+             let (rr, st2) := evalN ent.rm r st1
+             match rr with
+             | .ok vr => (chk w (ent.compute ctx.ops ctx.reMatch vl vr), st2)
+             | o => (o, st2))
+        | o => (o, st1)
+    else (.err, st)
+  | .call0 fn, st =>
+    let (res, st') := callFn ctx fn [] st
+    (chk w res, st')
+  | .call1 fn a, st =>
+    let (r1, s1) := argEvalN (typeP ctx σ a) (missOk a) st (fun t => evalN t a st)
+    match r1 with
+    | .ok v1 =>
+      let (res, st') := callFn ctx fn [v1] s1
+      (chk w res, st')
+    | o => (o, s1)
+  | .call2 fn a b, st =>
+    let (r1, s1) := argEvalN (typeP ctx σ a) (missOk a) st (fun t => evalN t a st)
+    match r1 with
+    | .ok v1 =>
+      let (r2, s2) := argEvalN (typeP ctx σ b) (missOk b) s1 (fun t => evalN t b s1)
+      (match r2 with
+       | .ok v2 =>
+         let (res, st') := callFn ctx fn [v1, v2] s2
+         (chk w res, st')
+       | o => (o, s2))
+    | o => (o, s1)
+  | .call3 fn a b d, st =>
+    let (r1, s1) := argEvalN (typeP ctx σ a) (missOk a) st (fun t => evalN t a st)
+    match r1 with
+    | .ok v1 =>
+      let (r2, s2) := argEvalN (typeP ctx σ b) (missOk b) s1 (fun t => evalN t b s1)
+      (match r2 with
+       | .ok v2 =>
+         let (r3, s3) := argEvalN (typeP ctx σ d) (missOk d) s2 (fun t => evalN t d s2)
+         (match r3 with
+          | .ok v3 =>
+            let (res, st') := callFn ctx fn [v1, v2, v3] s3
+            (chk w res, st')
+          | o => (o, s3))
+       | o => (o, s2))
+    | o => (o, s1)
+  | .callMany fn, st =>
+    let (res, st') := callFn ctx fn [.missing, .missing, .missing, .missing, .missing] st
+    (chk w res, st')
+
 /-- `Expression.Eval`: `Type`, then the `EvalX` of that type; a panic is recovered into an error. -/
 def evalTop (e : Expr F) (c : Cache) (st : FnState F) : Outcome (Value F) × Cache × FnState F :=
   let c1 := typeW ctx σ e c
@@ -407,5 +519,45 @@ def evalPred (e : Expr F) (c : Cache) (st : FnState F) : Outcome (Value F) × Ca
 def evalDirect (w : Ty) (e : Expr F) (c : Cache) (st : FnState F) : Outcome (Value F) × Cache × FnState F :=
   evalC ctx σ w e c st
 
+/-- the four ways an expression is asked (`type` = `Type(scope)` only; its answer is `typeP`). -/
+inductive Path where
+  | eval | pred | direct (w : Ty) | type
+deriving DecidableEq, Repr, Inhabited
+
+def runPath (p : Path) (e : Expr F) (c : Cache) (st : FnState F) : Outcome (Value F) × Cache × FnState F :=
+  match p with
+  | .eval => evalTop ctx σ e c st
+  | .pred => evalPred ctx σ e c st
+  | .direct w => evalDirect ctx σ w e c st
+  | .type => ((match typeP ctx σ e with | some _ => .ok .missing | none => .err), typeW ctx σ e c, st)
+
+/-- the entry paths with the cache erased. -/
+def evalTopN (e : Expr F) (st : FnState F) : Outcome (Value F) × FnState F :=
+  match typeP ctx σ e with
+  | none => (.err, st)
+  | some t =>
+    if t = .int ∨ t = .float ∨ t = .string ∨ t = .bool ∨ t = .duration then
+      let (r, st') := evalN ctx σ t e st
+      ((match r with | .trap => .err | o => o), st')
+    else (.err, st)
+
+def evalPredN (e : Expr F) (st : FnState F) : Outcome (Value F) × FnState F :=
+  match typeP ctx σ e with
+  | none => (.err, st)
+  | some _ => evalN ctx σ .bool e st
+
+def runPathN (p : Path) (e : Expr F) (st : FnState F) : Outcome (Value F) × FnState F :=
+  match p with
+  | .eval => evalTopN ctx σ e st
+  | .pred => evalPredN ctx σ e st
+  | .direct w => evalN ctx σ w e st
+  | .type => ((match typeP ctx σ e with | some _ => .ok .missing | none => .err), st)
+
 end
+
+/-- The cache of a compiled expression after ANY earlier evaluations: each one through any entry path, against
+any scope, with the function state of any group (`CopyReset` copies share the cache). -/
+def reach {F : Type} (ctx : Ctx F) (e : Expr F) (pre : List (Path × Scope F × FnState F)) : Cache :=
+  pre.foldl (fun c x => (runPath ctx x.2.1 x.1 e c x.2.2).2.1) (compileCache ctx e)
+
 end Kap.C04
